@@ -55,6 +55,7 @@ struct GuardCtx {
         FaultInfo fi;
 };
 extern __thread GuardCtx *t_guard;
+extern volatile int g_watchdog_limit; // ticks (1.5 s of CPU time each) one guarded call may last
 extern volatile uint64_t g_call_seq; // bumped at every guarded call; the watchdog sees a call that never returns
 void mem_install_handlers();
 // hook for other seams (cpu/sched) to look at SIGSEGV first; return true if handled
